@@ -1,51 +1,58 @@
 (* C05 - Results depend on the current configuration only, never on call history.
    Models: coq/Model/CacheMachine.v (SLOS deployed state space, iterator cache, Simulator._evolve, MPS bond dimension).
-   sstep R fixA fixB = one public operation of the SLOS engine; (false, false) = the code as it is, (true, true) = with
-   the two repairs proposed in known_findings.json.  Illegal operations (those that raise) leave the engine unchanged;
+   sstep R fixA fixB = one public operation of the SLOS engine; (true, true) = the code as it is now (/repo commit
+   1c6530fa), (false, false) = the code before it.  Illegal operations (those that raise) leave the engine unchanged;
    [photonic] = input states carry at least one photon.
+   The statements about the code before the repairs are kept with the suffix _old_code.
 
-   The full statement for the code as it is,
-       forall h q, sobs false false (srun false false h) q = sobs false false (srun false false (scanon (srun false false h))) q,
-   is FALSE: C05_slos_faithful_refuted gives four histories (photon number growing / shrinking under a kept mask string,
-   set_mask after set_input_state, and an empty level under a mask followed by a larger input = native crash). *)
+   The full statement WITHOUT [photonic] is false of the current code: C05_slos_vacuum_first_refuted (a vacuum input
+   first under a mask with an explicit n that needs more photons; open finding, replays on /repo). *)
 From PV Require Import Lib.QI Model.CacheMachine Proofs.CacheMachineP.
 
-(* the repaired SLOS engine: after ANY history a query returns what a fresh engine given the final configuration returns *)
-Theorem C05_slos_repaired_history_free : forall (R : cring) (h : list (sop R)) (q : squery),
+(* SLOS as it is: after ANY history a query returns what a fresh engine given the final configuration returns *)
+Theorem C05_slos_history_free : forall (R : cring) (h : list (sop R)) (q : squery),
   Forall (photonic (R:=R)) h ->
   sobs true true (srun true true h) q = sobs true true (srun true true (scanon (srun true true h))) q.
 Proof. exact repaired_history_free. Qed.
-Print Assumptions C05_slos_repaired_history_free.
+Print Assumptions C05_slos_history_free.
 
 (* ... which is the closed form of the configuration, itself a fold of the history's mutators alone *)
-Theorem C05_slos_repaired_is_spec : forall (R : cring) (h : list (sop R)) q m U st masks mask_n,
+Theorem C05_slos_is_spec : forall (R : cring) (h : list (sop R)) q m U st masks mask_n,
   Forall (photonic (R:=R)) h -> cfg_fold R h = (Some (m, U), Some st, masks, mask_n) ->
   sobs true true (srun true true h) q = spec_obs R m U (inst_of masks mask_n (total st)) st q.
 Proof. exact repaired_is_spec. Qed.
-Print Assumptions C05_slos_repaired_is_spec.
+Print Assumptions C05_slos_is_spec.
 
-(* the invariant itself: every cached array / path of the repaired engine was built for the current configuration *)
-Theorem C05_slos_repaired_coherent : forall (R : cring) (h : list (sop R)),
+(* the invariant itself: every cached array / path was built for the current configuration *)
+Theorem C05_slos_coherent : forall (R : cring) (h : list (sop R)),
   Forall (photonic (R:=R)) h -> Inv R (srun true true h).
 Proof. exact inv_run. Qed.
-Print Assumptions C05_slos_repaired_coherent.
+Print Assumptions C05_slos_coherent.
 
-(* the repaired engine never builds a level over an empty parent level: no native crash in any history *)
-Theorem C05_slos_repaired_never_crashes : forall (R : cring) (h : list (sop R)),
+(* no level is built over an empty parent level: no native crash in any photonic history *)
+Theorem C05_slos_never_crashes : forall (R : cring) (h : list (sop R)),
   Forall (photonic (R:=R)) h -> s_dead (srun true true h) = false.
 Proof. exact repaired_never_crashes. Qed.
-Print Assumptions C05_slos_repaired_never_crashes.
+Print Assumptions C05_slos_never_crashes.
 
-(* ... and never asks the native layer for an FSMap over a chain of levels that is not closed under removing a photon
-   (the domain on which the machine's coefficients are the native ones; outside it the native result is unspecified) *)
-Theorem C05_slos_repaired_chain_closed : forall (R : cring) (h : list (sop R)) st m U,
+(* ... and the native layer is never asked for an FSMap over a chain of levels that is not closed under removing a
+   photon (the domain on which the machine's coefficients are the native ones) *)
+Theorem C05_slos_chain_closed : forall (R : cring) (h : list (sop R)) st m U,
   Forall (photonic (R:=R)) h -> s_in (srun true true h) = Some st -> s_circ (srun true true h) = Some (m, U) ->
   chain_closed m (firstn (S (total st)) (s_lv (srun true true h))) = true.
 Proof. exact repaired_chain_closed. Qed.
-Print Assumptions C05_slos_repaired_chain_closed.
+Print Assumptions C05_slos_chain_closed.
 
-(* the code as it is: four witnesses *)
-Theorem C05_slos_faithful_refuted :
+(* outside [photonic], the code as it is now: vacuum input first under mask '2*' with n = 1, then |1,0>: crash;
+   a fresh engine given the final configuration does not *)
+Theorem C05_slos_vacuum_first_refuted :
+  s_dead (srun (R:=QI) true true w_vacuum) = true /\
+  s_dead (srun (R:=QI) true true (scanon (srun true true w_vacuum))) = false.
+Proof. exact current_vacuum_first_refuted. Qed.
+Print Assumptions C05_slos_vacuum_first_refuted.
+
+(* the code before 1c6530fa: four witnesses *)
+Theorem C05_slos_refuted_old_code :
   Forall (photonic (R:=QI)) w_growth /\ Forall (photonic (R:=QI)) w_shrink /\
   Forall (photonic (R:=QI)) w_remask /\ Forall (photonic (R:=QI)) w_crash /\
   differs_from_fresh w_growth (QAmp [1; 1]%nat) = true /\ differs_from_fresh w_growth QDist = true /\
@@ -54,19 +61,18 @@ Theorem C05_slos_faithful_refuted :
   s_dead (srun (R:=QI) false false w_crash) = true /\
   s_dead (srun (R:=QI) false false (scanon (srun false false w_crash))) = false.
 Proof. exact faithful_refuted. Qed.
-Print Assumptions C05_slos_faithful_refuted.
-Theorem C05_slos_faithful_refuted_neq : exists (h : list (sop QI)) q, Forall (photonic (R:=QI)) h /\
+Print Assumptions C05_slos_refuted_old_code.
+Theorem C05_slos_refuted_neq_old_code : exists (h : list (sop QI)) q, Forall (photonic (R:=QI)) h /\
   sobs false false (srun false false h) q <> sobs false false (srun false false (scanon (srun false false h))) q.
 Proof. exact faithful_refuted_neq. Qed.
-Print Assumptions C05_slos_faithful_refuted_neq.
-
-(* the code as it is, on the complement that needs no repair: histories without set_mask / clear_mask *)
-Theorem C05_slos_faithful_partial_no_mask : forall (R : cring) (h : list (sop R)) q,
+Print Assumptions C05_slos_refuted_neq_old_code.
+(* the code before 1c6530fa was already history-free on histories without set_mask / clear_mask *)
+Theorem C05_slos_no_mask_old_code : forall (R : cring) (h : list (sop R)) q,
   Forall (no_mask_op R) h -> Forall (photonic (R:=R)) h ->
   sobs false false (srun false false h) q = sobs false false (srun false false (scanon (srun false false h))) q.
 Proof. exact faithful_no_mask_history_free. Qed.
-Print Assumptions C05_slos_faithful_partial_no_mask.
-Example C05_partial_hypotheses_satisfiable : exists h : list (sop QI),
+Print Assumptions C05_slos_no_mask_old_code.
+Example C05_no_mask_hypotheses_satisfiable : exists h : list (sop QI),
   Forall (no_mask_op QI) h /\ Forall (photonic (R:=QI)) h /\ length h = 4%nat.
 Proof. exact partial_hypotheses_satisfiable. Qed.
 
@@ -83,37 +89,39 @@ Theorem C05_keyed_cache_history_free : forall (Cfg Key Dep Op : Type) (key_eqb :
   d = dep (fst (krun Cfg Key Dep Op key_eqb cstep survives dep ready c0 h)) k.
 Proof. exact keyed_query_fresh. Qed.
 Print Assumptions C05_keyed_cache_history_free.
-(* AStrongSimulationBackend._cache_iterator (Naive, SLAP, MPS): the cached output states of photon number k were
-   enumerated for the current circuit size and the current mask instance *)
 Theorem C05_iterator_cache_history_free : forall h k d,
   snd (kstep _ _ _ _ Nat.eqb it_cstep it_survives it_dep it_ready (krun _ _ _ _ Nat.eqb it_cstep it_survives it_dep it_ready it_init h) (KQuery k)) = Some d ->
   d = it_dep (fst (krun _ _ _ _ Nat.eqb it_cstep it_survives it_dep it_ready it_init h)) k.
 Proof. exact iterator_cache_history_free. Qed.
 Print Assumptions C05_iterator_cache_history_free.
-(* Simulator._evolve, entries keyed (state, n): computed for the current circuit and heralds *)
 Theorem C05_simulator_evolve_cache_history_free : forall c0 h k d,
   snd (kstep _ _ _ _ sn_eqb sim_cstep sim_survives sim_dep sim_ready (krun _ _ _ _ sn_eqb sim_cstep sim_survives sim_dep sim_ready c0 h) (KQuery k)) = Some d ->
   d = sim_dep (fst (krun _ _ _ _ sn_eqb sim_cstep sim_survives sim_dep sim_ready c0 h)) k.
 Proof. exact simulator_evolve_cache_history_free. Qed.
 Print Assumptions C05_simulator_evolve_cache_history_free.
-(* Simulator.probs(BasicState) evolves under the mask a previous probs_svd left in the engine *)
-Theorem C05_simulator_probs_refuted :
-  snd (simm_step (simm_run [SmHeralds 1; SmProbsSvd 1 true]) SmProbs) = Some (Some (1%nat, 1%nat)) /\
-  snd (simm_step (simm_run [SmHeralds 1]) SmProbs) = Some None.
-Proof. exact simulator_probs_refuted. Qed.
-Print Assumptions C05_simulator_probs_refuted.
+(* Simulator.probs(BasicState): now computed without a mask whatever probs_svd left in the engine; before bc7ab4f9 under
+   the leftover mask *)
+Theorem C05_simulator_probs_unmasked : forall h, snd (simm_step true (simm_run true h) SmProbs) = Some None.
+Proof. exact simulator_probs_unmasked. Qed.
+Print Assumptions C05_simulator_probs_unmasked.
+Theorem C05_simulator_probs_refuted_old_code :
+  snd (simm_step false (simm_run false [SmHeralds 1; SmProbsSvd 1 true]) SmProbs) = Some (Some (1%nat, 1%nat)) /\
+  snd (simm_step false (simm_run false [SmHeralds 1]) SmProbs) = Some None.
+Proof. exact simulator_probs_old_code. Qed.
+Print Assumptions C05_simulator_probs_refuted_old_code.
 
-(* MPS: the stored bond dimension depends on earlier inputs; computed per compilation it does not *)
-Theorem C05_mps_refuted :
+(* MPS: the bond dimension is now chosen per compilation from the requested cutoff (mps_run true); before 3d5f407f it
+   depended on earlier inputs *)
+Theorem C05_mps_history_free : forall h n, mps_n (mps_run true h) = Some n ->
+  mps_cut (mps_run true h) = mps_fresh (mps_run true h).
+Proof. exact mps_repaired_history_free. Qed.
+Print Assumptions C05_mps_history_free.
+Theorem C05_mps_refuted_old_code :
   mps_cut (mps_run false [MpsCirc 4; MpsIn 3; MpsIn 2]) = Some 4%nat /\
   mps_fresh (mps_run false [MpsCirc 4; MpsIn 3; MpsIn 2]) = Some 3%nat.
 Proof. exact mps_refuted. Qed.
-Print Assumptions C05_mps_refuted.
-Theorem C05_mps_repaired_history_free : forall h n, mps_n (mps_run true h) = Some n ->
-  mps_cut (mps_run true h) = mps_fresh (mps_run true h).
-Proof. exact mps_repaired_history_free. Qed.
-Print Assumptions C05_mps_repaired_history_free.
-Theorem C05_mps_partial_same_input : forall m n k,
+Print Assumptions C05_mps_refuted_old_code.
+Theorem C05_mps_same_input_old_code : forall m n k,
   mps_cut (mps_run false (MpsCirc m :: repeat (MpsIn n) (S k))) = Some (mps_clamp None m n).
 Proof. exact mps_partial_same_input. Qed.
-Print Assumptions C05_mps_partial_same_input.
+Print Assumptions C05_mps_same_input_old_code.
